@@ -269,6 +269,16 @@ async def run_call(cfg, call, clock, s3c_module=None):
         kind = call['call']
         if kind == 'upload':
             await ad.upload(call['name'], call['data'])
+        elif kind == 'upload_stream' and call.get('stream'):
+            # a stream whose `read(n)` returns UP TO n bytes, driven by a read policy (harness/impl/c16_streams.py); the reads and
+            # seeks the adapter issued are recorded even when the call fails
+            from . import c16_streams
+            st = c16_streams.make_stream(call['data'], call['stream'])
+            if call.get('pos', 0):
+                st.seek(call['pos'])
+            res['stream_log'], res['stream_seeks'] = st.read_log, st.seek_log
+            await ad.upload_stream(call['name'], st, call.get('length', len(call['data'])), call.get('chunk_size', 128_000))
+            res['stream_end_pos'] = st.tell()
         elif kind == 'upload_stream':
             st = TrackedStream(call['data'], call.get('pos', 0))
             await ad.upload_stream(call['name'], st, call.get('length', len(call['data'])), call.get('chunk_size', 128_000))
